@@ -86,15 +86,16 @@ static std::vector<Op> gen_ops() {
         // spans at and around every width boundary of (hi-lo+1), negative lows, lo==hi, up to 2^63-2
         int64_t lo = draw_i64("lo");
         uint64_t span; // hi - lo
-        switch (choose(6, "span.kind")) {
+        switch (choose(7, "span.kind")) {
           case 0: span = 0; break;
           case 1: span = choose(4, "span.tiny"); break;
           case 2: span = 0xFE + choose(4, "span.8"); break; // range 0xFF..0x102
           case 3: span = 0xFFFE + choose(4, "span.16"); break;
           case 4: span = 0xFFFFFFFEULL + choose(4, "span.32"); break;
-          default: span = choose_range(0, 0x7FFFFFFFFFFFFFFEULL, "span.any"); break;
+          case 5: span = 0x7FFFFFFFFFFFFFFFULL - choose(3, "span.63"); break; // up to 2^63-1: the largest span C20 quantifies over
+          default: span = choose_range(0, 0x7FFFFFFFFFFFFFFFULL, "span.any"); break;
         }
-        if (span > 0x7FFFFFFFFFFFFFFEULL) span = 0x7FFFFFFFFFFFFFFEULL; // keeps hi-lo+1 representable
+        if (span > 0x7FFFFFFFFFFFFFFFULL) span = 0x7FFFFFFFFFFFFFFFULL; // hi-lo < 2^63
         // keep hi representable
         __int128 hi = (__int128)lo + (__int128)span;
         if (hi > (__int128)INT64_MAX) hi = INT64_MAX;
@@ -249,6 +250,7 @@ static void run() {
       if (op.lo < 0) VS_PROBE("random_int.negative_low");
       uint64_t range = (uint64_t)op.hi - (uint64_t)op.lo + 1;
       if (range == 0x100 || range == 0x10000 || range == 0x100000000ULL) VS_PROBE("random_int.range_at_width_boundary");
+      if (range == 0x8000000000000000ULL) VS_PROBE("random_int.span_2_63_minus_1");
       continue;
     }
     // byte-producing calls
@@ -304,12 +306,12 @@ int main(int argc, char** argv) {
   e.assumptions = {
       "SCOPE: only the clause 'random_int(lo,hi) lies in [lo,hi] and random_data fills exactly the requested bytes' of C20 is decided; gcd, reduce_fraction, "
       "log2i, Vector2/3/4 and Matrix4 are pure functions, are not simulation targets and are NOT checked here",
-      "hi-lo is limited to 2^63-2 so that hi-lo+1 is representable (the property's quantifier says hi-lo < 2^63)",
+      "hi-lo ranges up to 2^63-1, the largest span C20 quantifies over (hi-lo < 2^63)",
       "no statistical quality is claimed; adversarial entropy streams (all 00, all FF, 80 00.., alternating) are legal outputs of a random source"};
   e.components = {{"phosg Random.cc (random_data, random_int), Random.hh (random_object<T>), Filesystem.cc readx/scoped_fd", "real code from the repository working tree"},
       {"/dev/urandom", "stub: simulated device (vsim/vfs.cc), byte stream and fault script chosen per run"},
       {"gcd/reduce_fraction/log2i/Vector/Matrix4", "not exercised (pure; outside this technique)"}};
-  e.expected_probes = {"adversarial_entropy_stream", "threw_on_device_fault", "random_int.lo_equals_hi", "random_int.negative_low", "random_int.range_at_width_boundary",
+  e.expected_probes = {"adversarial_entropy_stream", "threw_on_device_fault", "random_int.lo_equals_hi", "random_int.negative_low", "random_int.range_at_width_boundary", "random_int.span_2_63_minus_1",
       "random_data.spans_refill", "random_data.exactly_buffer"};
   e.expected_faults = {"short_read@urandom", "EIO@urandom", "EINTR@urandom"};
   return driver_main(argc, argv, e);
